@@ -293,9 +293,10 @@ class DataflowAnalysisAttacher(Transformer):
             outvals = [val for arg, val in o.arg_iter() if str(arg.type.intent).lower() in ('inout', 'out', 'none')]
             invals = [val for arg, val in o.arg_iter() if str(arg.type.intent).lower() in ('inout', 'in', 'none')]
 
-            arrays = [v for v in FindVariables().visit(outvals) if isinstance(v, Array)]
-            dims = OrderedSet(v for a in arrays for v in self._symbols_from_expr(a.dimensions))
             for val in outvals:
+                # Symbols in the subscripts of an argument are used, not defined, by passing that argument
+                arrays = [v for v in FindVariables().visit(val) if isinstance(v, Array)]
+                dims = OrderedSet(v for a in arrays for v in self._symbols_from_expr(a.dimensions))
                 exprs = self._symbols_from_expr(val)
                 defines |= OrderedSet(e for e in exprs if not e in dims)
                 uses |= dims
